@@ -18,10 +18,13 @@ C06Cases == [1..13 -> {"+", "-"}]
 \* C07: classes of base points (lightest SUSY mass >= 300 GeV)
 C07Cases == {"generic", "hightb", "compressed"}
 
+\* C15: the full cross product of GM2CalcConfig options (480 vectors)
+C15Opts == [fmt : 0..4, loop : 0..2, tb : BOOLEAN, force : BOOLEAN, verbose : BOOLEAN, unc : BOOLEAN, running : BOOLEAN]
+
 VARIABLE x
 Init == x = 0
 Next == UNCHANGED x
 Spec == Init /\ [][Next]_x
 
-ASSUME JsonSerialize(IOEnv.GEN_OUT, [C18 |-> C18Cases, C06 |-> C06Cases, C07 |-> C07Cases])
+ASSUME JsonSerialize(IOEnv.GEN_OUT, [C18 |-> C18Cases, C06 |-> C06Cases, C07 |-> C07Cases, C15 |-> C15Opts])
 =============================================================================
